@@ -1,5 +1,24 @@
 import AioModel.Wire
+import Driver.C01
+import Driver.C02
+import Driver.C03
 import Driver.C04
+import Driver.C05
+import Driver.C06
+import Driver.C07
+import Driver.C08
+import Driver.C09
+import Driver.C10
+import Driver.C11
+import Driver.C12
+import Driver.C13
+import Driver.C14
+import Driver.C15
+import Driver.C16
+import Driver.C17
+import Driver.C18
+import Driver.C19
+import Driver.C20
 /-!
 Line protocol: `<Cnn> <op> <arg>…` → one canonical line.  Each line is self-contained
 (stateful models receive the whole operation sequence on one line), so the driver keeps no
@@ -7,7 +26,26 @@ state between lines.
 -/
 def dispatch (line : String) : String :=
   match (line.splitOn " ").filter (· ≠ "") with
+  | "C01" :: rest => Aio.Driver.C01.handle rest
+  | "C02" :: rest => Aio.Driver.C02.handle rest
+  | "C03" :: rest => Aio.Driver.C03.handle rest
   | "C04" :: rest => Aio.Driver.C04.handle rest
+  | "C05" :: rest => Aio.Driver.C05.handle rest
+  | "C06" :: rest => Aio.Driver.C06.handle rest
+  | "C07" :: rest => Aio.Driver.C07.handle rest
+  | "C08" :: rest => Aio.Driver.C08.handle rest
+  | "C09" :: rest => Aio.Driver.C09.handle rest
+  | "C10" :: rest => Aio.Driver.C10.handle rest
+  | "C11" :: rest => Aio.Driver.C11.handle rest
+  | "C12" :: rest => Aio.Driver.C12.handle rest
+  | "C13" :: rest => Aio.Driver.C13.handle rest
+  | "C14" :: rest => Aio.Driver.C14.handle rest
+  | "C15" :: rest => Aio.Driver.C15.handle rest
+  | "C16" :: rest => Aio.Driver.C16.handle rest
+  | "C17" :: rest => Aio.Driver.C17.handle rest
+  | "C18" :: rest => Aio.Driver.C18.handle rest
+  | "C19" :: rest => Aio.Driver.C19.handle rest
+  | "C20" :: rest => Aio.Driver.C20.handle rest
   | _ => "bad-op"
 
 partial def loop (h : IO.FS.Stream) (out : IO.FS.Stream) : IO Unit := do
